@@ -128,6 +128,16 @@ def collect(cg, syn):
                     continue
                 seen.add(ident)
                 sites.append({"file": a["file"], "l": a["l"], "fn": owner["path"], "cls": "mir:" + a["kind"], "step": "", "key": key, "macro": a.get("macro")})
+            # additions / multiplications on anything but usize (sizes are bounded by memory): i64 is the type of PRQL integer literals, i.e. user values;
+            # classed per function so that new arithmetic on user values is a new class
+            elif a["kind"] in ("overflow_add", "overflow_mul", "overflow") and a.get("ty") not in ("usize", None, "") and not (a.get("macro") or "").startswith("#[derive"):
+                cls = "mir:" + a["kind"] + ":" + a["ty"]
+                key = (short_file(a["file"]), cls, owner["path"].rsplit("::", 1)[-1].split("{")[0] or owner["path"])
+                ident = (a["file"], a["l"], a.get("c"), a["kind"])
+                if ident in seen:
+                    continue
+                seen.add(ident)
+                sites.append({"file": a["file"], "l": a["l"], "fn": owner["path"], "cls": cls, "step": key[2], "key": key, "macro": a.get("macro")})
     return sites
 
 
